@@ -23,8 +23,10 @@
          conversion snippet of the kind (returns its error), then
          []byte, bool:  if cond == OpEq { == } else { != }
          others:        switch cond { six cases, no default }   (OpUnk/OpInc/OpDec leave *result alone)
-   The conversion snippet is looked up by typn, then typu; for the nodes both parsers
-   produce a builtin typn equals typu, so the kind is read from typu ([]byte from typn). *)
+   The conversion snippet is looked up by typn, then typu, and the two-way branch is chosen by
+   typn; for the nodes both parsers produce, a builtin typn equals typu (and a named bool, whose
+   six-way switch would not compile, is outside the supported fragment), so the model reads the
+   kind from typu and []byte from typ + typn. *)
 From Coq Require Import List Bool String Ascii ZArith Arith Lia Floats.SpecFloat.
 From Verif Require Import Util Ints Strconv Floats Node Value Outcome.
 Import ListNotations.
@@ -39,17 +41,18 @@ Definition cop_num (o : cop) : Z :=
 (* ---------- leaves ---------- *)
 Inductive lkind := LScalar (k : skind) | LBytes.
 
-Definition leaf_kind (n : node) : option lkind :=
-  if String.eqb (n_typn n) "[]byte" then Some LBytes
-  else match node_skind n with Some k => Some (LScalar k) | None => None end.
+(* the []byte node: typeSlice with typn "[]byte" *)
+Definition bytes_node (n : node) : bool :=
+  match n_typ n with typeSlice => String.eqb (n_typn n) "[]byte" | _ => false end.
 
 (* c.isBasic of a struct child / the node kinds that end in writeCmp *)
 Definition is_leaf (n : node) : bool :=
-  match n_typ n with
-  | typeBasic => true
-  | typeSlice => String.eqb (n_typn n) "[]byte"
-  | _ => false
-  end.
+  match n_typ n with typeBasic => true | _ => bytes_node n end.
+
+(* which snippet StrConvSnippet("right", typn, typu) finds *)
+Definition leaf_kind (n : node) : option lkind :=
+  if bytes_node n then Some LBytes
+  else match node_skind n with Some k => Some (LScalar k) | None => None end.
 
 Definition first_byte (s : string) : Z :=
   match s with EmptyString => 0%Z | String c _ => Z.of_N (N_of_ascii c) end.
@@ -118,9 +121,10 @@ Definition cmp_leaf (left : node) (x : val) (op : cop) (right : string) (res : b
     match conv_operand k right with
     | None => Ret res (Some EParse)
     | Some r =>
-      if String.eqb (n_typn left) "[]byte" || String.eqb (n_typn left) "bool"
-      then Fall (branch2 op x r)
-      else Fall (switch6 op x r res)
+      match k with
+      | LBytes | LScalar SBool => Fall (branch2 op x r)       (* switch left.typn { case "[]byte": ... case "bool": ... *)
+      | _ => Fall (switch6 op x r res)
+      end
     end
   end.
 
